@@ -167,7 +167,7 @@ class C07(InterpProp):
         if h:
             sc = chart_from_json(h['base'])
             gen.warm(sc)
-            gen.apply_edits(sc, h['edits'])
+            gen.apply_edits(sc, h['edits'], check=True)
             sc2 = chart_from_json(payload['charts'][1])
             payload['charts'] = [ChartEnc(sc).json, ChartEnc(sc2).json]
             return {'charts': [sc, sc2]}
@@ -213,6 +213,11 @@ class C07(InterpProp):
             yield q
 
     def oracle(self, case, obs, res):
+        for c0 in case.aux.get('charts', []):
+            if getattr(c0, '_vp_edit_error', None):
+                res.violations.append('while the statechart was edited through the API (a valid edit of a valid statechart): %s'
+                                      % c0._vp_edit_error)
+                return
         for k, (op, ob) in enumerate(zip(case.payload['ops'], obs['obs'])):
             if op[0] == 'create' and isinstance(ob.get('r'), dict) and ob['r'].get('initial_context_modified'):
                 res.violations.append('op %d: the mapping given as initial_context to an earlier interpreter was written '
